@@ -16,6 +16,9 @@ pub struct FileCase {
     /// finalize() is also called after shape i when bit i (mod 32) is set
     #[serde(default)]
     pub mid_fins: u32,
+    /// a shape of another type is offered (and must be rejected) before shape i when bit i (mod 32) is set
+    #[serde(default)]
+    pub rejects: u32,
     pub geoms: Vec<Geom>,
 }
 
@@ -47,14 +50,16 @@ pub fn file_case(g: FileGen) -> BoxedStrategy<FileCase> {
         disk_every,
     } = g;
     let fins = prop_oneof![3 => Just(0u32), 2 => any::<u32>(), 1 => (0u32..32).prop_map(|b| 1 << b)];
-    (gen::ty13(), ctor(), finish(), 0u32..disk_every.max(1), fins)
-        .prop_flat_map(move |(ty, ctor, fin, d, mid_fins)| {
+    let rej = prop_oneof![4 => Just(0u32), 1 => any::<u32>(), 1 => (1u32..32).prop_map(|b| 1 << b)];
+    (gen::ty13(), ctor(), finish(), 0u32..disk_every.max(1), fins, rej)
+        .prop_flat_map(move |(ty, ctor, fin, d, mid_fins, rejects)| {
             gen::shapes(ty, min_n, max_n, nan_zm, max_parts, max_pts).prop_map(move |geoms| FileCase {
                 ty,
                 ctor,
                 fin,
                 disk: disk_every > 0 && d == 0,
                 mid_fins,
+                rejects,
                 geoms,
             })
         })
@@ -85,6 +90,7 @@ pub fn large_file_case(nan_zm: bool) -> BoxedStrategy<FileCase> {
                 fin,
                 disk: false,
                 mid_fins,
+                rejects: 0,
                 geoms,
             })
         })
